@@ -7,6 +7,7 @@ package main
 import (
 	"fmt"
 	"go/types"
+	"math/big"
 	"sort"
 	"strings"
 
@@ -121,7 +122,12 @@ type exec struct {
 	inInit  int
 	depth   int
 
+	known         map[*Term]bool
+	ubounds       map[*Term]uint64 // unsigned upper bounds of input variables (from assumptions)
+	knownHits     int
+	local         *localCtx
 	unknownBranch bool
+	panicSite     string
 	pendingAbort *abort
 	exitAck      chan struct{}
 	syncMaps     map[*value]*gmap
@@ -149,8 +155,88 @@ func (ex *exec) assertTerm(t *Term) {
 	if t.IsConst() && t.U == 1 {
 		return
 	}
+	if v, ok := ex.known[t]; ok && v {
+		return // already part of the path condition
+	}
+	ex.learn(t, true)
 	ex.pathCond = append(ex.pathCond, t)
 	ex.solver.Assert(t)
+}
+
+// learn records the truth value of t (and of its obvious consequences) in the
+// per-path table of decided facts.
+func (ex *exec) learn(t *Term, v bool) {
+	if t.IsConst() {
+		return
+	}
+	ex.known[t] = v
+	if v && (t.Op == "bvult" || t.Op == "bvule") && t.Args[0].Op == "var" && t.Args[1].IsConst() {
+		ub := t.Args[1].U
+		if t.Op == "bvult" && ub > 0 {
+			ub--
+		}
+		if old, ok := ex.ubounds[t.Args[0]]; !ok || ub < old {
+			ex.ubounds[t.Args[0]] = ub
+		}
+	}
+	switch t.Op {
+	case "not":
+		ex.learn(t.Args[0], !v)
+	case "and":
+		if v {
+			ex.learn(t.Args[0], true)
+			ex.learn(t.Args[1], true)
+		}
+	case "or":
+		if !v {
+			ex.learn(t.Args[0], false)
+			ex.learn(t.Args[1], false)
+		}
+	}
+}
+
+// lookupKnown answers c from the table of decided facts, without the solver.
+func (ex *exec) lookupKnown(c *Term, depth int) (val, ok bool) {
+	if c.IsConst() {
+		return c.U == 1, true
+	}
+	if v, ok := ex.known[c]; ok {
+		return v, true
+	}
+	if depth > 6 {
+		return false, false
+	}
+	switch c.Op {
+	case "not":
+		v, ok := ex.lookupKnown(c.Args[0], depth+1)
+		return !v, ok
+	case "and":
+		a, oka := ex.lookupKnown(c.Args[0], depth+1)
+		b, okb := ex.lookupKnown(c.Args[1], depth+1)
+		if (oka && !a) || (okb && !b) {
+			return false, true
+		}
+		if oka && okb {
+			return true, true
+		}
+	case "or":
+		a, oka := ex.lookupKnown(c.Args[0], depth+1)
+		b, okb := ex.lookupKnown(c.Args[1], depth+1)
+		if (oka && a) || (okb && b) {
+			return true, true
+		}
+		if oka && okb {
+			return false, true
+		}
+	case "ite":
+		if cv, okc := ex.lookupKnown(c.Args[0], depth+1); okc {
+			if cv {
+				return ex.lookupKnown(c.Args[1], depth+1)
+			}
+			return ex.lookupKnown(c.Args[2], depth+1)
+		}
+	}
+	return false, false
 }
 
 func (ex *exec) replaying() bool { return ex.pos < len(ex.prefix) }
@@ -185,6 +271,9 @@ func (ex *exec) decide(c *Term) bool {
 	if c.IsConst() {
 		return c.U == 1
 	}
+	if ex.local != nil {
+		return ex.local.decide(c)
+	}
 	ex.bumpDecisions()
 	if ex.replaying() {
 		d := ex.nextDec('b')
@@ -194,6 +283,12 @@ func (ex *exec) decide(c *Term) bool {
 		}
 		ex.assertTerm(tNot(c))
 		return false
+	}
+	if v, ok := ex.lookupKnown(c, 0); ok {
+		// implied by facts already decided on this path: no query, no fork
+		ex.knownHits++
+		ex.trace = append(ex.trace, dec{'b', b2u(v)})
+		return v
 	}
 	rt, _ := ex.solver.Check(c, nil)
 	rf := "sat" // the path condition is satisfiable, so if c is impossible ¬c is possible
@@ -229,6 +324,9 @@ func (ex *exec) choose(n int, why string) int {
 	if n <= 1 {
 		return 0
 	}
+	if ex.local != nil {
+		panic(localBail{"n-way choice inside a summarised function"})
+	}
 	ex.bumpDecisions()
 	if ex.replaying() {
 		d := ex.nextDec('c')
@@ -245,6 +343,9 @@ func (ex *exec) choose(n int, why string) int {
 func (ex *exec) concretize(t *Term, site string) uint64 {
 	if t.IsConst() {
 		return t.U
+	}
+	if ex.local != nil {
+		panic(localBail{"concretisation inside a summarised function"})
 	}
 	for {
 		ex.bumpDecisions()
@@ -338,10 +439,7 @@ func (ex *exec) modelInputs(extra *Term) (string, []replayInput) {
 			raw := model[termKey(in.term)]
 			switch in.term.S.K {
 			case 'V':
-				if in.Kind == "uid" {
-					ri.Value = strings.TrimPrefix(strings.TrimSpace(raw), "#x") // 32 hex digits
-					break
-				}
+
 				v, _ := parseBVValue(raw, in.term.S.W)
 				switch in.Kind {
 				case "i32":
@@ -353,6 +451,13 @@ func (ex *exec) modelInputs(extra *Term) (string, []replayInput) {
 				}
 			case 'B':
 				ri.Value = raw
+			case 'I':
+				// identifier: integer -> 32 hex digits
+				bi, ok := new(big.Int).SetString(strings.TrimSpace(raw), 10)
+				if !ok {
+					bi = new(big.Int)
+				}
+				ri.Value = fmt.Sprintf("%032x", bi)
 			case 'S':
 				ri.Value = unquoteSMT(raw)
 			default:
@@ -521,4 +626,71 @@ func (ex *exec) hashModel(args []value) value {
 		ct = c.T
 	}
 	return symv{tApp("vfhash", sString, lift(era, sBV(32)), lift(lam, sBV(64)), lift(del, sBV(32)), ct)}
+}
+
+func b2u(b bool) uint64 {
+	if b {
+		return 1
+	}
+	return 0
+}
+
+// ubound returns an unsigned upper bound of a bit-vector term that follows
+// from the assumptions made so far (ok=false: nothing better than the width).
+func (ex *exec) ubound(t *Term, depth int) (uint64, bool) {
+	if t.IsConst() {
+		return t.U, true
+	}
+	if depth > 8 {
+		return 0, false
+	}
+	switch t.Op {
+	case "var":
+		u, ok := ex.ubounds[t]
+		return u, ok
+	case "bvadd":
+		a, oka := ex.ubound(t.Args[0], depth+1)
+		b, okb := ex.ubound(t.Args[1], depth+1)
+		if oka && okb && a+b >= a && (t.S.W == 64 || a+b <= mask(t.S.W)) {
+			return a + b, true
+		}
+	case "ite":
+		a, oka := ex.ubound(t.Args[1], depth+1)
+		b, okb := ex.ubound(t.Args[2], depth+1)
+		if oka && okb {
+			if a > b {
+				return a, true
+			}
+			return b, true
+		}
+	}
+	return 0, false
+}
+
+// wrapCompare rewrites sign tests of a wrap-around difference,
+// int(a-b) > 0 / < 0 / ..., into a plain unsigned comparison when both
+// operands are known to be below 2^(w-2), where no wrap can occur.  The
+// rewrite is exact under the path condition the bounds come from.
+func (ex *exec) wrapCompare(op string, a, b *Term) *Term {
+	if !(b.IsConst() && b.U == 0 && a.Op == "bvsub") {
+		return nil
+	}
+	x, y := a.Args[0], a.Args[1]
+	lim := uint64(1) << uint(a.S.W-2)
+	ux, okx := ex.ubound(x, 0)
+	uy, oky := ex.ubound(y, 0)
+	if !okx || !oky || ux >= lim || uy >= lim {
+		return nil
+	}
+	switch op {
+	case "bvsgt":
+		return tBVCmp("bvugt", x, y)
+	case "bvsge":
+		return tBVCmp("bvuge", x, y)
+	case "bvslt":
+		return tBVCmp("bvult", x, y)
+	case "bvsle":
+		return tBVCmp("bvule", x, y)
+	}
+	return nil
 }
